@@ -451,6 +451,14 @@ func (e *Engine) runUnit(f *fx, c *Contract) {
 			sc.assert(f.specBool(rq, f.topEnv))
 		}
 	}
+	if fn.Synthetic == "package initializer" && fn.Pkg != nil {
+		// the package initialiser runs once: it is entered with its guard variable still false
+		if g := fn.Pkg.Var("init$guard"); g != nil {
+			if v := f.val(g); v.Kind == vLoc {
+				sc.assert(not(f.load(entry, v.Loc)))
+			}
+		}
+	}
 	if _, ok := e.specs.Ghosts["Held"]; ok {
 		// lock discipline: every function is entered with no jet lock held by the calling goroutine
 		// (checked at call sites: see noLockAcrossCall)
